@@ -392,6 +392,10 @@ func propC05(run *Run, n int) {
 			{VObj("tags", VArr(VStr("x"), VArr(), VStr("y"))), VObj("tags", VArr(VStr("x"), VStr(""), VStr("y")))},
 			{VArr(VObj("args", VArr(VArr()))), VArr(VObj("args", VArr(VStr(""))))},
 			{VArr(VArr(VNum(1), VNum(2)), VArr(VNum(3))), VArr(VArr(VNum(2), VNum(1)), VArr(VNum(3)))},
+			// lists three levels deep that differ only in a scalar BEFORE a nested list at least as long as what precedes it
+			{VArr(VArr(VNum(1), VArr(VNum(7)))), VArr(VArr(VNum(2), VArr(VNum(7))))},
+			{VObj("k", VArr(VArr(VStr("x"), VArr(VStr("y"), VStr("z"))), VNum(3))), VObj("k", VArr(VArr(VStr("w"), VArr(VStr("y"), VStr("z"))), VNum(3)))},
+			{VArr(VArr(VNum(1), VNum(5), VArr(VNum(7), VNum(8), VArr(VNum(9), VNum(9), VNum(9))))), VArr(VArr(VNum(1), VNum(6), VArr(VNum(7), VNum(8), VArr(VNum(9), VNum(9), VNum(9)))))},
 		} {
 			if ch.o.Has("K") {
 				continue
@@ -594,6 +598,10 @@ func addC05Case(run *Run, o OptSet, label string, a, b *Val) {
 		Probe{Kind: "corr", Rel: "Equals = equals model", Line: fmt.Sprintf("equals %s %s %s", o.Wire(), aw, bw), Want: eq},
 		Probe{Kind: "oracle", Rel: "C05 diff empty ⇔ Equals", Line: fmt.Sprintf("c05 %s %s %s %s %s", o.Wire(), aw, bw, boolWire(dw == "< >"), eq)},
 	)
+	// the same question asked a second time (Diff must not depend on what was diffed before it)
+	if dw2 := implDiff(o, aw, bw); dw2 != dw {
+		c.Probes = append(c.Probes, Probe{Kind: "direct", Rel: "C05 a second Diff of the same pair gives the same diff", Want: "fail a second Diff of the same documents gives " + short(dw2) + " instead of " + short(dw)})
+	}
 	run.Count("opts:" + label)
 	run.Count("diff_empty:" + fmt.Sprint(dw == "< >") + ",equals:" + eq)
 	run.Add(c)
@@ -1040,9 +1048,69 @@ func addC03Case(run *Run, t *Val, dw string) {
 		}
 		c.Probes = append(c.Probes, Probe{Kind: "direct", Rel: "C03 a diff value applies the same way every time (fresh target, same diff value)", Want: twice})
 	}
+	// … and after the document it produced has been EDITED by a later Patch (every leaf changed in place, at every
+	// depth): the values a diff adds must not stay shared with the document they were added to
+	if strings.HasPrefix(out, "ok ") && hunkCount(dw) > 0 {
+		after := "ok"
+		res, _ := safely(func() string {
+			d := mustDiff(dw)
+			r1, e1 := mustNode(tw).Patch(d)
+			if e1 != nil {
+				return "done"
+			}
+			o1 := encOutcomeNode(r1, e1)
+			rv, err := ParseWire(o1[3:])
+			if err != nil {
+				return "done"
+			}
+			bumped := mustNode(bumpLeaves(rv).Wire())
+			if _, e := r1.Patch(r1.Diff(bumped)); e != nil {
+				return "done"
+			}
+			r3, e3 := mustNode(tw).Patch(d)
+			o3 := encOutcomeNode(r3, e3)
+			if untagWire(o1) != untagWire(o3) {
+				after = "fail after the patched document was edited by a later Patch, the same diff value applied to a fresh copy of the target gives " + short(o3) + " instead of " + short(o1)
+			}
+			return "done"
+		})
+		if res == "panic" {
+			after = "ok"
+		}
+		c.Probes = append(c.Probes, Probe{Kind: "direct", Rel: "C03 a diff value applies the same way after the document it produced was edited in place", Want: after})
+	}
 	run.Count("outcome:" + strings.Fields(out)[0])
 	run.Count("hunks:" + sizeBucket(hunkCount(dw)))
 	run.Add(c)
+}
+
+// bumpLeaves: a copy of v with every scalar leaf changed (numbers +1, strings extended, booleans flipped, null -> 0), the
+// structure kept
+func bumpLeaves(v *Val) *Val {
+	w := v.Clone()
+	var walk func(x *Val)
+	walk = func(x *Val) {
+		switch x.K {
+		case KNum:
+			x.N = x.N + 1
+		case KStr:
+			x.S = x.S + "'"
+		case KBool:
+			x.B = !x.B
+		case KNull:
+			x.K, x.N = KNum, 0
+		case KArr:
+			for _, e := range x.A {
+				walk(e)
+			}
+		case KObj:
+			for _, e := range x.O {
+				walk(e)
+			}
+		}
+	}
+	walk(w)
+	return w
 }
 
 // ---------------------------------------------------------------------------------------------
